@@ -78,6 +78,33 @@ func samplesOf(body []byte, trex *mp4.TrexBox) ([]sampleRec, bool, []uint32, err
 	return out, stypFirst, seqs, nil
 }
 
+// chunkSpans: media time covered by every chunk (moof) of a response, and the longest sample.
+func chunkSpans(body []byte, trex *mp4.TrexBox) ([]uint64, uint32, error) {
+	f, err := mp4.DecodeFileSR(bits.NewFixedSliceReader(body))
+	if err != nil {
+		return nil, 0, err
+	}
+	var spans []uint64
+	var maxSamp uint32
+	for _, seg := range f.Segments {
+		for _, fr := range seg.Fragments {
+			fss, err := fr.GetFullSamples(trex)
+			if err != nil {
+				return nil, 0, err
+			}
+			var sp uint64
+			for _, s := range fss {
+				sp += uint64(s.Dur)
+				if s.Dur > maxSamp {
+					maxSamp = s.Dur
+				}
+			}
+			spans = append(spans, sp)
+		}
+	}
+	return spans, maxSamp, nil
+}
+
 // timedRecorder timestamps every Flush.
 type timedRecorder struct {
 	*httptest.ResponseRecorder
@@ -174,6 +201,9 @@ func genC09(c *Ctx) {
 				if atoMS%125 != 0 {
 					atoMS = atoMS / 125 * 125
 				}
+				if r.Intn(3) == 0 { // offsets that are not whole seconds, below and above one second
+					atoMS = r.Pick(250, 500, 750, 1250, 1500, 2500, a.SegmentDurMS-250)
+				}
 				if atoMS <= 0 || atoMS >= a.SegmentDurMS {
 					continue
 				}
@@ -215,6 +245,17 @@ func genC09(c *Ctx) {
 						c.Violate("ll-seq", "chunk with another sequence number", rp, nil)
 						break
 					}
+				}
+				// no chunk spans more than segment duration minus the advertised offset, up to one sample
+				if spans, maxSamp, err := chunkSpans(chunked.body, trex); err == nil {
+					limit := uint64(a.SegmentDurMS-atoMS)*uint64(rep.MediaTimescale)/1000 + uint64(maxSamp)
+					for ci, sp := range spans {
+						if sp > limit {
+							c.Violate("ll-chunk-span", fmt.Sprintf("chunk %d of %d spans %d ticks, segment duration minus offset (%d ms) plus one sample allows %d", ci, len(spans), sp, a.SegmentDurMS-atoMS, limit), rp, nil)
+							break
+						}
+					}
+					c.Count("ll-chunk-spans-checked")
 				}
 				// before the advertised availability time: too early
 				early := doLive("GET", segURL(a, cfg, rep.ID, segID, strconv.FormatInt(av-int64(atoMS)-2, 10)))
